@@ -4,6 +4,7 @@ package main
 // transient Spec name, and what writing/removing under that name does to the directory tree.
 
 import (
+	"sync"
 	"encoding/json"
 	"flag"
 	"fmt"
@@ -28,6 +29,19 @@ type mNameRow struct {
 }
 
 var nameKinds = map[string]string{"plain": "v1.com/cls", "dotted": "v1.com/a.b", "jsoncls": "v1.com/c.json", "yamlcls": "v.org/c.yaml"}
+
+var nameMaxOnce sync.Once
+var nameMaxOK bool
+
+// nameMax255: can the scratch file system hold a 255-byte name (NAME_MAX of most file systems)?
+func nameMax255() bool {
+	nameMaxOnce.Do(func() {
+		d := mkScratch("namemax")
+		defer os.RemoveAll(d)
+		nameMaxOK = os.WriteFile(filepath.Join(d, strings.Repeat("n", 255)), nil, 0o644) == nil
+	})
+	return nameMaxOK
+}
 
 func nameTok(t string) string {
 	if k, ok := nameKinds[t]; ok {
@@ -70,6 +84,10 @@ func oracleSpecNameRow(idx int, line []byte, seed int64, col *collector) {
 		}
 	}
 	fills := make([]int, nL)
+	if nL > 0 && !nameMax255() {
+		col.count("rows_skipped_name_max_below_255", 1)
+		return
+	}
 	if nL > 0 {
 		rest := 0
 		for _, t := range row.File {
